@@ -8,6 +8,7 @@ RULE = (
     "all frame histories up to the depth bound over the frame alphabet (all (multi)sets of <= 2-3 droplet types incl. the empty frame) "
     "x all tracker configurations {overlap, distance x max_dist in (inf,1.25,0.5,-1)} x {no grid, periodic grid} x time variants; "
     "state = history; non-trivial = history contains >= 2 non-empty frames; every history is run on fresh objects"
+    "; grids also with a non-zero lower bound and with mixed periodicity (non-periodic in 1-D); exactly representable (dyadic, 3-4-5) lattices on which contact is decidable; time variants incl. 1e5 + 0.5 k and k*1e-9"
 )
 ASSUMPTIONS = [
     "droplet types from the declared lattices in 1-3 dimensions; depth <= 3 frames (4-5 for single-droplet frames)",
